@@ -60,7 +60,7 @@ def exact_reason(s, defs, top=True):
     for kw in ("allOf", "anyOf", "oneOf", "not"):
         if kw in s and mentions_object(s[kw]):
             return "multi-over-object"
-    if s.get("uniqueItems") and mentions_object(s.get("items")):
+    if s.get("uniqueItems") and mentions_structure(s.get("items")):
         # elements become Structure instances / surplus elements stay raw dicts: `==` differs from JSON equality
         return "unique-over-object"
     if isinstance(s.get("multiplesOf"), float) or (s.get("type") == "number" and "multiplesOf" in s):
@@ -88,6 +88,37 @@ def mentions_object(x):
             return True
         return any(mentions_object(v) for k, v in x.items() if k not in ("enum", "default", "properties"))
     return False
+
+
+def mentions_structure(x):
+    """does an item schema mention a Structure ($ref / object with properties)?  Map-like objects and arrays stay
+    plain dicts / lists, for which Python `==` is JSON equality (up to True == 1)"""
+    if isinstance(x, list):
+        return any(mentions_structure(y) for y in x)
+    if isinstance(x, dict):
+        if "$ref" in x or "properties" in x:
+            return True
+        return any(mentions_structure(v) for k, v in x.items() if k not in ("enum", "default", "properties"))
+    return False
+
+
+# element pairs for uniqueItems: JSON-equal but spelled differently / JSON-different but Python-equal /
+# identical / genuinely different.  (label, a, b)
+NEAR_DUP = [
+    ("int-float", [1, 2], [1.0, 2]),
+    ("key-order", {"a": 1, "b": 2}, {"b": 2, "a": 1}),
+    ("nested-int-float", [1, [2]], [1, [2.0]]),
+    ("object-int-float", {"a": [1]}, {"a": [1.0]}),
+    ("nested-key-order", {"k": {"a": 1, "b": 2}}, {"k": {"b": 2, "a": 1}}),
+    ("array-of-objects-key-order", [{"a": 1, "b": 2}], [{"b": 2, "a": 1}]),
+    ("scalar-int-float", 2, 2.0),
+    ("bool-vs-int", [True], [1]),                     # different JSON values
+    ("bool-vs-int", {"a": True}, {"a": 1}),            # different JSON values
+    ("identical", [1, 2], [1, 2]),
+    ("identical-object", {"a": 1, "b": 2}, {"a": 1, "b": 2}),
+    ("different", [1, 2], [2, 1]),
+    ("different-object", {"a": 1}, {"a": 2}),
+]
 
 
 class DocGen:
@@ -179,6 +210,60 @@ class DocGen:
             return out + tail
         return self.obj_docs(s, depth)
 
+    def unique_variants(self, s, depth=0):
+        """(label, value) pairs exercising `uniqueItems` at or below `s` (depth <= 2 of wrapping)"""
+        out = []
+        if not isinstance(s, dict) or "$ref" in s or depth > 2:
+            return out
+        t = s.get("type", "object")
+        if t == "array" and not any(k in s for k in ("allOf", "anyOf", "oneOf", "not", "enum")):
+            items = s.get("items")
+            if s.get("uniqueItems"):
+                prefix = []
+                ev = None
+                ok = True
+                if isinstance(items, dict):
+                    ev = self.validator_for(items)
+                elif isinstance(items, list):
+                    if s.get("additionalItems") is False:
+                        ok = False
+                    for it in items:
+                        good = self.valid_of(it, self.cands(it, depth + 1))
+                        if not good:
+                            ok = False
+                            break
+                        prefix.append(good[0])
+                    if has_bool(prefix):
+                        ok = False      # True == 1 among the prefix would mix in the bool-vs-int phenomenon
+                if ok:
+                    for label, a, b in NEAR_DUP:
+                        if ev is None or (ev.is_valid(a) and ev.is_valid(b)):
+                            out.append((label, prefix + [a, b]))
+                            out.append((label, prefix + [b, 7, a] if ev is None or ev.is_valid(7) else prefix + [b, a]))
+            if isinstance(items, dict):
+                for label, v in self.unique_variants(items, depth + 1):
+                    out.append((label, [v]))
+        elif t == "object" and "properties" not in s:
+            ap = s.get("additionalProperties")
+            if isinstance(ap, dict):
+                for label, v in self.unique_variants(ap, depth + 1):
+                    out.append((label, {"k": v}))
+        elif t == "object":
+            inner = None
+            for n, sub in s["properties"].items():
+                vs = self.unique_variants(sub, depth + 1)
+                if vs and inner is None:
+                    docs = self.obj_docs(s, 1)
+                    inner = docs[0] if docs and isinstance(docs[0], dict) else {}
+                    if (short_positional(s, inner, self.defs) or has_none(inner)
+                            or self.validator_for(s).is_valid(inner) is False):
+                        return out      # the surrounding object already shows a known phenomenon / is not a valid base
+                for label, v in vs:
+                    d = dict(inner)
+                    d[n] = v
+                    out.append((label, d))
+        return out
+
     def valid_of(self, s, cands):
         """validator-accepted candidates, those free of the known deviation phenomena first"""
         try:
@@ -201,6 +286,15 @@ class DocGen:
             if good:
                 base[n] = good[0]
         out = [("base", dict(base)), ("toptype", []), ("toptype", "x"), ("toptype", None)]
+        if depth == 0:
+            for n in props:
+                for label, v in self.unique_variants(props[n])[:26]:
+                    d = dict(base)
+                    d[n] = v
+                    # a known phenomenon in the untouched rest of the document (e.g. a short positional array
+                    # in the base) keeps its own key
+                    rest = self.doc_phenomenon(props, {k: x for k, x in base.items() if k != n})
+                    out.append((rest or "unique:" + label, d))
         for n in props:
             d = dict(base)
             d.pop(n, None)
@@ -216,7 +310,7 @@ class DocGen:
             d = dict(base)
             d["zz_extra"] = 1
             out.append(("extra", d))
-            return [(self.doc_phenomenon(props, d) or k, d) for k, d in out]
+            return [(k if k.startswith(("unique:", "PHEN:")) else (self.doc_phenomenon(props, d) or k), d) for k, d in out]
         return [d for _, d in out]
 
 
@@ -342,7 +436,7 @@ def run_docs(case, cls, g):
     mismatches = []
     n = 0
     seen = set()
-    for kind, doc in docs[:case.get("max_docs", 60)]:
+    for kind, doc in docs[:case.get("max_docs", 110)]:
         key = json.dumps(doc, sort_keys=True, default=str)
         if key in seen:
             continue
@@ -354,9 +448,10 @@ def run_docs(case, cls, g):
             got, err = True, None
         except Exception as e:
             got, err = False, f"{type(e).__name__}: {e}"[:160]
-        if got != want and len(mismatches) < 3:
+        if got != want and len(mismatches) < 6:
             mismatches.append({
                 "key": ("exact:" + kind[5:] if kind.startswith("PHEN:")
+                        else f"exact:{'accepts-invalid' if got else 'rejects-valid'}:{kind}" if kind.startswith("unique:")
                         else f"exact:{'accepts-invalid' if got else 'rejects-valid'}:{kind.split(':')[0]}"),
                 "what": f"document {json.dumps(doc, ensure_ascii=False)[:200]}: generated class "
                         f"{'accepts' if got else 'rejects (' + str(err) + ')'}, draft-4 validator "
